@@ -894,8 +894,8 @@ class Desugar:
         span, chain = t["span"], blk.get("inl", ())
         dest, target = t["dest"]["l"], t["target"]
         ty = t.get("dest_ty", "?")
-        if not ty.startswith("std::vec::Vec<"):
-            raise _Skip("collect into something other than a Vec")
+        if not ty.startswith(("std::vec::Vec<", "std::boxed::Box<[")):
+            raise _Skip("collect into something other than a Vec / boxed slice")
         src, stages, _ = self.iter_source(body, t["args"][0], [])
         if not stages:
             raise _Skip("collect without a map stage: nothing to splice")
